@@ -11,6 +11,14 @@
   trace is accepted (`C01_prefix_closed`), over **every instant** at which the process or the
   machine may stop; `CrashOf` lets every file that was not fsynced since its last change come back
   with arbitrary content.
+
+  Which theorems are what (see notes/C01.md):
+  * inductive consequences of the invariants `QInv` / `CodeInv` / `FwdInv` over all accepted traces:
+    `C01_atomic`, `C01_success`, `C01_failure`, `C01_killed`, `C01_leftovers`, `C01_refusal`,
+    `C01_refusal_only`;
+  * facts about the scanner function alone: `C01_envelope_*`, `C01_addr_limit`;
+  * restatements of guards of the acceptor (they say what `accept` admits; it is the replay of the
+    real program's traces that ties them to the code): `C01_timer`, `C01_handler_no_cleanup`.
 -/
 import Nq.Lemmas.QueueEnv
 
@@ -52,13 +60,84 @@ theorem C01_success (p : Params) (evs : List Ev) (s : St) (h : Run p evs s) (hx 
   have ht : fs'.todoName = true := by rw [hc.2.2.2.1]; exact hq.1.2.2.2
   exact ⟨ht, C01_atomic p evs s h fs' hc ht⟩
 
-/-- **Failure queues nothing**: whenever qmail-queue exits non-zero (documented codes 11, 51–54,
-61–66, 81, 91) the entry is not visible, nor does any crash make it visible. -/
+/-- **Failure queues nothing**: whenever qmail-queue exits with a non-zero code other than the two
+signal-handler codes - i.e. with 11, 51, 53, 54, 61-66, 91 - the entry is not visible, nor does any
+crash make it visible.  (Replaces the earlier statement "every non-zero exit", which is false of
+the program once signals are modelled: `sigalrm`/`sigbug` do not - and must not - clean up, so a
+signal between `link(intd,todo)` and `_exit` gives exit 52/81 with the entry queued; see
+`C01_killed`.  The property allows this: on failure the message is fully queued or invisible.) -/
 theorem C01_failure (p : Params) (evs : List Ev) (s : St) (h : Run p evs s) (c : Nat) (hx : s.pc = .exited c)
-    (hc0 : c ≠ 0) (fs' : FS) (hc : CrashOf (applyAll {} evs) fs') : fs'.todoName = false := by
+    (hc0 : c ≠ 0) (h52 : c ≠ 52) (h81 : c ≠ 81) (fs' : FS) (hc : CrashOf (applyAll {} evs) fs') :
+    fs'.todoName = false := by
   have hinv := run_inv p evs {} s {} (inv_init p) h
-  have hl : Leftover (applyAll {} evs) := by simpa [QInv, hx, hc0] using hinv
+  have hl : Leftover (applyAll {} evs) := by simpa [QInv, hx, hc0, h52, h81] using hinv
   rw [hc.2.2.2.1]; exact hl.1
+
+/-- **Killed by the timer (exit 52) or by a bug signal (exit 81)**: the handlers do not clean up.
+After such an exit, and after any crash, the entry is visible only if `link(intd/<n>,todo/<n>)` had
+succeeded before the signal arrived, and then it is complete and durable exactly as after a
+successful run; otherwise what stays behind is a collectable leftover (`C01_leftovers`). -/
+theorem C01_killed (p : Params) (evs : List Ev) (s : St) (h : Run p evs s) (c : Nat) (_hx : s.pc = .exited c)
+    (_hc : c = 52 ∨ c = 81) (fs' : FS) (hcr : CrashOf (applyAll {} evs) fs') :
+    (fs'.todoName = true →
+      Ev.linkTodo true ∈ evs ∧ fs'.messName = true ∧ fs'.messF.cur = p.received ++ p.msg ∧
+      (scan p.env).1 = .done ∧ fs'.intdF.cur = p.hdr ++ (scan p.env).2) ∧
+    (Ev.linkTodo true ∉ evs → fs'.todoName = false) := by
+  have hlink : fs'.todoName = true → Ev.linkTodo true ∈ evs := by
+    intro ht
+    rw [hcr.2.2.2.1] at ht
+    rcases todo_needs_link evs {} ht with h0 | h1
+    · simp at h0
+    · exact h1
+  refine ⟨fun ht => ⟨hlink ht, C01_atomic p evs s h fs' hcr ht⟩, fun hn => ?_⟩
+  cases ht : fs'.todoName with
+  | false => rfl
+  | true => exact absurd (hlink ht) hn
+
+/-- (guard of the acceptor, tied to the code by trace replay) **The signal handlers do nothing but
+exit**: in a run, whatever follows the delivery of a caught signal is at most the `_exit` with the
+handler's code - no `ftruncate`, no `unlink` ("thou shalt not clean up here": after the link,
+`intd/<n>` and `todo/<n>` are one inode, so a cleanup would empty a published entry). -/
+theorem C01_handler_no_cleanup (p : Params) (pre post : List Ev) (g : Sig) (s : St)
+    (h : Run p (pre ++ .signal g :: post) s) : post = [] ∨ post = [.exit (sigCode g)] := by
+  unfold Run at h
+  obtain ⟨s1, h1, h2⟩ := acceptAll_append p pre (.signal g :: post) {} s h
+  simp only [acceptAll] at h2
+  cases hs : accept p s1 (.signal g) with
+  | none => simp [hs] at h2
+  | some s2 =>
+    simp only [hs] at h2
+    have hpc : s2.pc = .handler (sigCode g) := by
+      simp only [accept] at hs
+      split at hs <;> cases hs <;> rfl
+    cases post with
+    | nil => exact Or.inl rfl
+    | cons e rest =>
+      right
+      simp only [acceptAll] at h2
+      cases he : accept p s2 e with
+      | none => simp [he] at h2
+      | some s3 =>
+        simp only [he] at h2
+        have hex : e = .exit (sigCode g) ∧ s3.pc = .exited (sigCode g) := by
+          cases e with
+          | exit code =>
+            simp only [accept, hpc] at he
+            split at he
+            · rename_i hc; cases he; exact ⟨by rw [hc], by rw [hc]⟩
+            · cases he
+          | write f bs => cases f <;> simp [accept, hpc] at he
+          | writeErr f i => cases f <;> simp [accept, hpc] at he
+          | fsync f ok => cases f <;> simp [accept, hpc] at he
+          | ftrunc f ok => cases f <;> simp [accept, hpc] at he
+          | unlinkF f ok => cases f <;> simp [accept, hpc] at he
+          | read fd n => simp [accept, hpc] at he
+          | _ => simp [accept, hpc] at he
+        cases rest with
+        | nil => rw [hex.1]
+        | cons e2 rest2 =>
+          simp only [acceptAll, accept_exited p s3 _ hex.2 e2] at h2
+          cases h2
 
 /-- **Leftovers are collectable**: at every instant the set of files of the entry is one of
 nothing, the pid file, pid+mess, mess, mess+intd (all removed by qmail-clean/qmail-send after 36
@@ -71,11 +150,30 @@ theorem C01_leftovers (p : Params) (evs : List Ev) (s : St) (h : Run p evs s) (f
   obtain ⟨c1, c2, c3, c4, _, _⟩ := hc
   rw [c1, c2, c3, c4]; exact this
 
-/-- **Malformed envelopes are refused with the documented codes**: a run ends with exit 91 only if
-the envelope has a wrong record letter, with exit 11 only if an address reaches `ADDR` = 1003
-bytes (`scan` is characterised by `C01_envelope_*` below); neither exit path runs `cleanup`, so by
-`C01_leftovers` what stays behind is mess+intd, which the daemon collects. -/
-theorem C01_refusal (p : Params) (evs : List Ev) (s : St) (h : Run p evs s) :
+/-- **Malformed, over-long and truncated envelopes are refused with the documented codes and queue
+nothing**: in a run in which no call fails (`Faulty`: EINTR, short writes, any chunking of reads
+and writes and a failing trigger pull are all allowed) the exit code is determined by the envelope
+stream supplied: 0 if it is well-formed, 91 if a record letter is wrong, 11 if an address reaches
+1003 bytes, 54 if the stream ends before the terminator (`C01_envelope_*` characterise the four
+verdicts).  And whenever the envelope is not well-formed the code is non-zero and the entry is not
+visible, nor does any crash make it visible.  (The earlier `C01_refusal` had only the converse,
+now `C01_refusal_only`, and said nothing about 54.) -/
+theorem C01_refusal (p : Params) (evs : List Ev) (s : St) (h : Run p evs s) (hf : ∀ e ∈ evs, Faulty e = false)
+    (c : Nat) (hx : s.pc = .exited c) :
+    c = docCode (scan p.env).1 ∧
+    ((scan p.env).1 ≠ .done → (c = 91 ∨ c = 11 ∨ c = 54) ∧
+       ∀ fs', CrashOf (applyAll {} evs) fs' → fs'.todoName = false) := by
+  have hfw := run_fwd p evs {} s (by simp [FwdInv]) hf h
+  have hc : c = docCode (scan p.env).1 := by simpa [FwdInv, hx] using hfw
+  refine ⟨hc, fun hnd => ?_⟩
+  have hcodes : c = 91 ∨ c = 11 ∨ c = 54 := by
+    rw [hc]; cases hs : (scan p.env).1 <;> simp_all [docCode]
+  exact ⟨hcodes, fun fs' hcr => C01_failure p evs s h c hx (by omega) (by omega) (by omega) fs' hcr⟩
+
+/-- the converse, for every run whatever fails in it: exit 91 only if the envelope has a wrong record
+letter, exit 11 only if an address reaches `ADDR` = 1003 bytes; neither exit path runs `cleanup`, so
+by `C01_leftovers` what stays behind is mess+intd, which the daemon collects. -/
+theorem C01_refusal_only (p : Params) (evs : List Ev) (s : St) (h : Run p evs s) :
     (s.pc = .exited 91 → (scan p.env).1 = .bad) ∧ (s.pc = .exited 11 → (scan p.env).1 = .long) := by
   have hc := run_code p evs {} s (by simp [CodeInv]) h
   constructor
@@ -85,6 +183,22 @@ theorem C01_refusal (p : Params) (evs : List Ev) (s : St) (h : Run p evs s) :
   · intro hx
     have : (scan (p.env.take s.envRead)).1 = .long := by simpa [CodeInv, hx] using hc
     rw [scan_take p.env s.envRead (Or.inr (Or.inr this))]; exact this
+
+/-- **Truncated = the stream ends first**: the scanner ends in none of its three verdicts iff it had
+reached none of them on any prefix of the stream (so exit 54 of `C01_refusal` is exactly "the writer
+stopped before the terminator, and nothing before that point was wrong"). -/
+theorem C01_envelope_truncated (env : Bytes) :
+    ((scan env).1 ≠ .done ∧ (scan env).1 ≠ .bad ∧ (scan env).1 ≠ .long) ↔
+    ∀ k, (scan (env.take k)).1 ≠ .done ∧ (scan (env.take k)).1 ≠ .bad ∧ (scan (env.take k)).1 ≠ .long := by
+  constructor
+  · intro hn k
+    refine ⟨fun hk => ?_, fun hk => ?_, fun hk => ?_⟩
+    · exact hn.1 (by rw [scan_take env k (Or.inl hk)]; exact hk)
+    · exact hn.2.1 (by rw [scan_take env k (Or.inr (Or.inl hk))]; exact hk)
+    · exact hn.2.2 (by rw [scan_take env k (Or.inr (Or.inr hk))]; exact hk)
+  · intro hk
+    have := hk env.length
+    rwa [List.take_length] at this
 
 /-- **Envelope format, completeness**: every envelope `F sender NUL (T rcpt NUL)* NUL` whose
 addresses are NUL-free and at most 1002 bytes long is accepted; what is stored is exactly the
@@ -126,21 +240,43 @@ theorem C01_envelope_long (a rest : Bytes) (h0 : (0 : Byte) ∉ a) (hl : a.lengt
 /-- the address limit in the source is the documented one (1002 bytes accepted, 1003 refused) -/
 theorem C01_addr_limit : Gen.ADDR = ADDR_DOC := by decide
 
-/-- **The self-destruct timer**: the first call of every run arms `alarm(DEATH)` before any file
-exists, and `DEATH` (24 h) is below the age (`OSSIFIED`, 36 h) at which qmail-send and qmail-clean
-start collecting leftovers — constants regenerated from the three source files on every run. -/
-theorem C01_timer (p : Params) (e : Ev) (s : St) (h : accept p {} e = some s) :
-    e = .alarm Gen.DEATH ∧ Gen.DEATH < Gen.OSSIFIED_send ∧ Gen.OSSIFIED_send = Gen.OSSIFIED_clean := by
+/-- (guard of the acceptor at `start`, tied to the code by trace replay; the constants are
+regenerated from the three source files on every run) **The self-destruct timer**: every run
+begins with `alarm(DEATH)` - or consists of nothing but an exit 61/62/51 (a `chdir` or the first
+allocation failed: nothing was created) - so the timer is armed before any file exists; and
+`DEATH` (24 h) is below the age (`OSSIFIED`, 36 h) at which qmail-send and qmail-clean start
+collecting leftovers.  What the timer does when it fires is `C01_killed`. -/
+theorem C01_timer (p : Params) (e : Ev) (evs : List Ev) (s : St) (h : Run p (e :: evs) s) :
+    (e = .alarm Gen.DEATH ∨ ((e = .exit 61 ∨ e = .exit 62 ∨ e = .exit 51) ∧ evs = [])) ∧
+    Gen.DEATH < Gen.OSSIFIED_send ∧ Gen.OSSIFIED_send = Gen.OSSIFIED_clean := by
   refine ⟨?_, by decide, by decide⟩
-  cases e with
-  | alarm n => simp [accept] at h; simp [h.1]
-  | write f bs => cases f <;> simp [accept] at h
-  | writeErr f i => cases f <;> simp [accept] at h
-  | fsync f ok => cases f <;> simp [accept] at h
-  | ftrunc f ok => cases f <;> simp [accept] at h
-  | unlinkF f ok => cases f <;> simp [accept] at h
-  | read fd n => simp [accept] at h
-  | _ => simp [accept] at h
+  unfold Run at h
+  simp only [acceptAll] at h
+  cases h1 : accept p {} e with
+  | none => simp [h1] at h
+  | some s1 =>
+    simp only [h1] at h
+    cases e with
+    | alarm n => simp [accept] at h1; simp [h1.1]
+    | exit code =>
+      right
+      simp only [accept] at h1
+      split at h1
+      · rename_i hc; cases h1
+        refine ⟨by rcases hc with hc | hc | hc <;> simp [hc], ?_⟩
+        cases evs with
+        | nil => rfl
+        | cons e2 rest =>
+          have := accept_exited p { pc := PC.exited code } code rfl e2
+          simp [acceptAll, this] at h
+      · cases h1
+    | write f bs => cases f <;> simp [accept] at h1
+    | writeErr f i => cases f <;> simp [accept] at h1
+    | fsync f ok => cases f <;> simp [accept] at h1
+    | ftrunc f ok => cases f <;> simp [accept] at h1
+    | unlinkF f ok => cases f <;> simp [accept] at h1
+    | read fd n => simp [accept] at h1
+    | _ => simp [accept] at h1
 
 /-! ### Non-vacuity -/
 
@@ -195,6 +331,59 @@ example : (acceptAll { msg := [104], env := [70, 0, 0], received := [82], hdr :=
     [.alarm Gen.DEATH, .openPid 1 true, .fstatPid true, .linkMess true, .unlinkPid true,
      .read 0 1, .read 0 0, .write .mess [82, 104], .fsync .mess true, .openIntd true, .read 1 3,
      .writeErr .intd false, .ftrunc .intd false, .unlinkF .intd false, .exit 53]).map (·.pc) = some (.exited 53) := by
+  decide
+
+/-- the hypothesis of `C01_refusal` holds of the complete run above (a refused pid file name, a
+write in two pieces and an EINTR are not `Faulty`) -/
+example : ([.alarm Gen.DEATH, .openPid 1 false, .openPid 2 true, .fstatPid true, .linkMess true, .unlinkPid true,
+     .read 0 3, .write .mess [82, 58], .writeErr .mess true, .read 0 0, .write .mess [10, 104, 105, 10], .fsync .mess true,
+     .openIntd true, .read 1 7, .write .intd [117, 49, 0, 112, 50, 0, 70, 97, 0, 84, 98, 0], .fsync .intd true,
+     .linkTodo true, .trigOpen true, .trigWrite, .trigClose, .exit 0] : List Ev).all (fun e => !Faulty e) = true := by
+  decide
+
+/-- a wrong record letter (X instead of T): exit 91 without cleanup, no failing call -/
+example : (acceptAll { msg := [104], env := [70, 97, 0, 88, 98, 0, 0], received := [82], hdr := [117] } {}
+    [.alarm Gen.DEATH, .openPid 1 true, .fstatPid true, .linkMess true, .unlinkPid true,
+     .read 0 1, .read 0 0, .write .mess [82, 104], .fsync .mess true, .openIntd true, .read 1 7, .exit 91]).map (·.pc)
+    = some (.exited 91) := by
+  decide
+
+example : docCode (scan [70, 97, 0, 88, 98, 0, 0]).1 = 91 ∧ docCode (scan [70, 97]).1 = 54 ∧
+    docCode (scan [70, 97, 0, 0]).1 = 0 := by decide
+
+/-- SIGALRM between `link(intd,todo)` and `_exit`: exit 52 although the (complete) entry is queued -/
+example : (acceptAll { msg := [], env := [70, 0, 0], received := [82], hdr := [117] } {}
+    [.alarm Gen.DEATH, .openPid 1 true, .fstatPid true, .linkMess true, .unlinkPid true,
+     .read 0 0, .write .mess [82], .fsync .mess true, .openIntd true, .read 1 3, .write .intd [117, 70, 0],
+     .fsync .intd true, .linkTodo true, .signal .alrm, .exit 52]).map (·.pc) = some (.exited 52) := by
+  decide
+
+example : (applyAll {} ([.alarm Gen.DEATH, .openPid 1 true, .fstatPid true, .linkMess true, .unlinkPid true,
+     .read 0 0, .write .mess [82], .fsync .mess true, .openIntd true, .read 1 3, .write .intd [117, 70, 0],
+     .fsync .intd true, .linkTodo true, .signal .alrm, .exit 52] : List Ev)).todoName = true := by
+  decide
+
+/-- a handler that cleans up is not this program: `ftruncate(intd)` after SIGALRM is rejected -/
+example : acceptAll { msg := [], env := [70, 0, 0], received := [82], hdr := [117] } {}
+    [.alarm Gen.DEATH, .openPid 1 true, .fstatPid true, .linkMess true, .unlinkPid true,
+     .read 0 0, .write .mess [82], .fsync .mess true, .openIntd true, .read 1 3, .write .intd [117, 70, 0],
+     .fsync .intd true, .linkTodo true, .signal .alrm, .ftrunc .intd true] = none := by
+  decide
+
+/-- SIGALRM inside `cleanup()`, between `unlink(intd/<n>)` and the calls on `mess/<n>` -/
+example : (acceptAll { msg := [104], env := [70, 97], received := [82], hdr := [117] } {}
+    [.alarm Gen.DEATH, .openPid 1 true, .fstatPid true, .linkMess true, .unlinkPid true,
+     .read 0 1, .read 0 0, .write .mess [82, 104], .fsync .mess true, .openIntd true, .read 1 2, .read 1 0,
+     .ftrunc .intd true, .unlinkF .intd true, .signal .alrm, .exit 52]).map (·.pc) = some (.exited 52) := by
+  decide
+
+/-- `chdir` fails: exit 61, nothing else; an allocation fails in `fnnum()`: exit 51, the pid file stays -/
+example : (acceptAll { msg := [], env := [], received := [], hdr := [] } {} [.exit 61]).map (·.pc) = some (.exited 61) := by
+  decide
+
+example : (acceptAll { msg := [], env := [], received := [], hdr := [] } {}
+    [.alarm Gen.DEATH, .openPid 1 true, .fstatPid true, .exit 51]).map (·.pc) = some (.exited 51) ∧
+    (applyAll {} ([.alarm Gen.DEATH, .openPid 1 true, .fstatPid true, .exit 51] : List Ev)).pidName = true := by
   decide
 
 end Nq.Props.C01
